@@ -414,3 +414,37 @@ func (b *Body) successDominates(c ssa.CallInstruction, target ssa.Instruction) (
 	}
 	return false, "no error test whose success edge dominates the use"
 }
+
+// resultsOf: the value(s) standing for result i of the call value t — the extracts of a
+// tuple, or the call itself when it has a single result.
+func resultsOf(t ssa.Value, i int) []ssa.Value {
+	if t == nil {
+		return nil
+	}
+	if _, isTuple := t.Type().(*types.Tuple); isTuple {
+		var out []ssa.Value
+		for _, ex := range extractOf(t, i) {
+			out = append(out, ex)
+		}
+		return out
+	}
+	if i == 0 {
+		return []ssa.Value{t}
+	}
+	return nil
+}
+
+// asResult: v is result idx of call (an extract of its tuple, or the single-result call itself).
+func asResult(v ssa.Value) (call *ssa.Call, idx int, ok bool) {
+	switch x := v.(type) {
+	case *ssa.Extract:
+		if c, isCall := x.Tuple.(*ssa.Call); isCall {
+			return c, x.Index, true
+		}
+	case *ssa.Call:
+		if _, isTuple := x.Type().(*types.Tuple); !isTuple {
+			return x, 0, true
+		}
+	}
+	return nil, 0, false
+}
